@@ -66,6 +66,9 @@ Instant(a) == CASE a = "2024-03-10T11:59:59.750Z" -> [t |-> 1, tod |-> 43199, wd
                 [] a = "2024-03-11T00:00:00Z" -> [t |-> 7, tod |-> 0, wd |-> "Mon"]
                 [] a = "2024-03-11T12:30:00Z" -> [t |-> 8, tod |-> 45000, wd |-> "Mon"]
                 [] a = "2024-03-12T12:30:00Z" -> [t |-> 9, tod |-> 45000, wd |-> "Tue"]
+                \* the bounds of W1 written with a UTC offset (the same instants as 12:00:00Z and 13:00:00Z)
+                [] a = "2024-03-10T14:00:00+02:00" -> [t |-> 2, tod |-> 43200, wd |-> "Sun"]
+                [] a = "2024-03-10T08:00:00-05:00" -> [t |-> 5, tod |-> 46800, wd |-> "Sun"]
 TimeOfDay(s) == CASE s = "12:00:00" -> 43200 [] s = "13:00:00" -> 46800 [] s = "00:00:00" -> 0 [] s = "23:59:59" -> 86399
 \* half-open windows; "" = open end
 InDateWindow(i, w) == (w[1] = "" \/ Instant(w[1]).t <= i.t) /\ (w[2] = "" \/ i.t < Instant(w[2]).t)
